@@ -27,7 +27,7 @@ def rand_fields(rnd, kind):
     if kind == 0: return [rnd.randrange(2), rnd.choice([0, 1, 219, 220, 255, 256, 65535, rnd.randrange(65536)]), t(), t(), t(), rnd.choice([0, 4, 20, rnd.randrange(40)])]
     if kind == 1: return [rnd.choice([0, 1, 99, 100, 255, rnd.randrange(101)]), rnd.choice(["SHUTTER_STOP", "SHUTTER_UP", "SHUTTER_DOWN"]), rnd.choice([0, 16, 29, rnd.randrange(40)])]
     if kind == 2:
-        rem = bytes(rnd.choice(b"ABCELZM0123456789") for _ in range(rnd.choice([8, 8, 8, 0, 1, 7])))
+        rem = bytes(rnd.choice(b"ABCELZMabcelz0123456789-_ ") for _ in range(rnd.choice([8, 8, 8, 0, 1, 7])))
         return [rnd.choice([0, 1, 255, 256, 65535, rnd.randrange(500)]), rnd.randrange(2), rnd.choice(world.MODE_NAMES), rnd.choice([0, 16, 30, 255, rnd.randrange(256)]),
                 rnd.choice(world.FAN_NAMES), rnd.randrange(2), rem.hex(), rnd.choice([4, 17, 28, rnd.randrange(40)])]
     sess = rnd.choice([b"\0\0\0\0", b"\xff\xff\xff\xff", b"\0\0\0\1", b"\1\0\0\0", b"\0\0\xff\0", world.rand_bytes(rnd, 4), world.rand_bytes(rnd, 4), world.rand_bytes(rnd, 4)])
